@@ -149,6 +149,18 @@ def _run_bs(check: Check, thorough: bool, tmo: int):
             check.violation(f"bs_df(df={df},degree={degree},ii={ii})", f"bs(df={df}) produced {len(out)} columns", p)
         for mode in (("extend", "clip") if not thorough else ("raise", "clip", "na", "zero", "extend")):
             _bs_case(check, bs, degree, None, None, None, ii, mode, tmo, state=st, label=f"df={df} train={train}")
+        # nulls in the training vector: the recorded state is that of the non-null values, null rows come out null, other rows unchanged
+        tn = train[:3] + [float("nan")] + train[3:]
+        st2: dict = {}
+        out2 = bs(numpy.array(tn), df=df, degree=degree, include_intercept=ii, _state=st2)
+        same_state = set(st2) == set(st) and all(numpy.allclose(numpy.asarray(st2[k], dtype=float), numpy.asarray(st[k], dtype=float)) if isinstance(st[k], (list, numpy.ndarray)) else st2[k] == st[k] for k in st)
+        rows_ok = set(out2) == set(out) and all(
+            numpy.isnan(out2[k][3]) and numpy.allclose(numpy.delete(numpy.asarray(out2[k], dtype=float), 3), numpy.asarray(out[k], dtype=float)) for k in out)
+        check.obligation("bs.nulls/ground", "ground" if (same_state and rows_ok) else "refuted")
+        if not (same_state and rows_ok):
+            p = {"kind": "c12_bs_nulls", "train": train, "df": df, "degree": degree, "ii": ii}
+            check.violation(f"bs_nulls(degree={degree},ii={ii})::{'state-differs' if not same_state else 'rows-differ'}",
+                            f"bs(df={df}, degree={degree}) on a training vector holding one NaN: " + ("recorded state differs from that of the non-null values" if not same_state else "null row not null or other rows changed"), p)
 
 
 # ---------------------------------------------------------------------------------------------- cubic regression splines
